@@ -97,7 +97,14 @@ def run(crate_key, prefixes, timeout=3000):
                    VERIF_SEED=os.environ.get('VERIF_SEED', '0') or '0')
         results = []
         filt = ['vx_harness::' + p for p in prefixes]
-        cmd = ['cargo', 'test', '--offline', '-p', pkg, '--lib'] + filt[:1] + ['--', '--nocapture', '--test-threads', '8'] + filt[1:]
+        feats = []
+        try:
+            # hooks of /repo (MANIFEST.hooks): built in when the crate declares the guard feature
+            if re.search(r'^verif_hooks\s*=', open(os.path.join(SCRATCH, d, 'Cargo.toml')).read(), re.M):
+                feats = ['--features', 'verif_hooks']
+        except OSError:
+            pass
+        cmd = ['cargo', 'test', '--offline', '-p', pkg, '--lib'] + feats + filt[:1] + ['--', '--nocapture', '--test-threads', '8'] + filt[1:]
         p = subprocess.run(cmd, cwd=SCRATCH, env=env, capture_output=True, text=True, timeout=timeout)
         out = p.stdout + '\n' + p.stderr
         if 'could not compile' in out or re.search(r'^error(\[E\d+\])?:', out, re.M) and 'test failed' not in out:
